@@ -143,6 +143,20 @@ MUTANTS = [
             for key in open_messages[channel].keys():""", """        for channel in list(open_messages.keys())[:1]:
             for key in open_messages[channel].keys():""", "normalise: unclosed notes removed on the first channel only"),
     # ---------------------------------------------------------------- C08
+    ("c08x", "C08", R, """                        if msg.message_type in [MessageType.CONTROL_CHANGE, MessageType.PROGRAM_CHANGE])
+
+                    if len(current_sequence._messages) > 0:""",
+     """                        if msg.message_type in [MessageType.CONTROL_CHANGE])
+
+                    if len(current_sequence._messages) > 0:""",
+     "split: only control changes survive on the final tick, program changes there are dropped again (half of fix 92dca25 undone)"),
+    ("c09x", "C09", R, """                    current_sequence._messages.extend(
+                        msg for msg in next_sequence_queue
+                        if msg.message_type in [MessageType.CONTROL_CHANGE, MessageType.PROGRAM_CHANGE])""",
+     """                    next_sequence._messages.extend(
+                        msg for msg in next_sequence_queue
+                        if msg.message_type in [MessageType.CONTROL_CHANGE, MessageType.PROGRAM_CHANGE])""",
+     "split: final-tick control events go to a new zero-length piece instead of the end of the current one (conforms to C08 as stated; in bar splitting it adds an empty bar: C09 coverage)"),
     ("c08a", "C08", R, "                    if msg.time <= remaining_capacity:", "                    if msg.time < remaining_capacity:",
      "split: a wait that exactly fills the capacity is treated as straddling (only adds zero-length re-struck notes / a zero-length piece: sound, events and durations are conserved) — expected NOT detected"),
     ("c08b", "C08", R, """                                Message(message_type=MessageType.NOTE_ON, channel=value.channel, note=value.note,
